@@ -294,17 +294,79 @@ class Macros:
                     pass
         return out
 
+    def expand(self, text: str, skip: Optional[set] = None, depth: int = 0) -> str:
+        """Expand uses of function-like macros of this header inside `text`
+        (textual substitution of the parameters, as the preprocessor does)."""
+        if depth > 6:
+            return text
+        skip = skip or set()
+        out = ""
+        i = 0
+        while i < len(text):
+            m = re.compile(r"[A-Za-z_][A-Za-z0-9_]*").match(text, i)
+            if not m:
+                out += text[i]
+                i += 1
+                continue
+            word = m.group(0)
+            j = m.end()
+            k = j
+            while k < len(text) and text[k] in " \t":
+                k += 1
+            if word in self.functions and word not in skip and k < len(text) and text[k] == "(":
+                # find the matching parenthesis
+                d, e = 0, k
+                while e < len(text):
+                    if text[e] == "(":
+                        d += 1
+                    elif text[e] == ")":
+                        d -= 1
+                        if d == 0:
+                            break
+                    e += 1
+                args = [a.strip() for a in _split_top(text[k + 1 : e])]
+                params, body = self.functions[word]
+                if len(args) == len(params) or (not params and args == [""]) or (not params and not args):
+                    sub = body
+                    for p_, a_ in zip(params, args):
+                        sub = re.sub(r"\b" + re.escape(p_) + r"\b", lambda _m, a_=a_: a_, sub)
+                    out += self.expand(sub, skip | {word}, depth + 1)
+                    i = e + 1
+                    continue
+            out += word
+            i = j
+        return out
+
     def initializer(self, name: str) -> Tuple[List[str], Optional[str], List[str]]:
         """(params, struct name, initializer elements) of a constructor macro
         of the form ((struct S){a, b, c})."""
         if name not in self.functions:
             raise Inconclusive(f"bitproto.h: macro {name} vanished")
         params, body = self.functions[name]
+        body = self.expand(body, skip={name})
         m = re.search(r"\(\s*struct\s+([A-Za-z_][A-Za-z0-9_]*)\s*\)\s*\{(.*)\}", body)
         if not m:
             raise Inconclusive(f"bitproto.h: macro {name} is not a compound-literal constructor")
-        elems = [re.sub(r"^\((.*)\)$", r"\1", e.strip()) for e in _split_top(m.group(2))]
+        elems = [e.strip() for e in _split_top(m.group(2))]
+        for _ in range(3):  # (x), ((x)) -> x
+            elems = [re.sub(r"^\((.*)\)$", r"\1", e).strip() if _balanced(e) else e for e in elems]
         return params, m.group(1), elems
+
+
+def _balanced(e: str) -> bool:
+    """e is one parenthesised group: ( ... ) with the first paren closing at the end"""
+    e = e.strip()
+    if not (e.startswith("(") and e.endswith(")")):
+        return False
+    d = 0
+    for i, ch in enumerate(e):
+        if ch == "(":
+            d += 1
+        elif ch == ")":
+            d -= 1
+            if d == 0 and i != len(e) - 1:
+                return False
+    return True
 
 
 def _split_top(s: str) -> List[str]:
